@@ -182,7 +182,53 @@ pub fn check_sequence(shape: &Shape, values: &[Value], strip_last: bool, garbage
     Ok(())
 }
 
+#[derive(serde::Serialize, Clone, Copy)]
+enum OnlyOne {
+    Reset,
+}
+#[derive(serde::Serialize)]
+struct Marker;
+
+/// Values whose in-memory size is zero: every COBS entry point frames what the plain encoder writes for them.
+fn zero_sized_values(l: &mut Local) -> CaseResult {
+    fn one<T: serde::Serialize + ?Sized>(name: &str, v: &T, l: &mut Local) -> CaseResult {
+        let cj = || json!({"zero_sized_value": name});
+        l.eval();
+        let plain = postcard::to_allocvec(v).map_err(|e| fail("frame", format!("{}: to_allocvec failed: {:?}", name, e), cj()))?;
+        let want = refcobs::frame(&plain);
+        let mut buf = vec![0x77u8; want.len() + 3];
+        let outs: Vec<(&str, postcard::Result<Vec<u8>>)> = vec![
+            ("to_allocvec_cobs", no_panic(|| postcard::to_allocvec_cobs(v)).map_err(|p| fail("frame", format!("{} panicked: {}", name, p), cj()))?),
+            ("to_stdvec_cobs", no_panic(|| postcard::to_stdvec_cobs(v)).map_err(|p| fail("frame", format!("{} panicked: {}", name, p), cj()))?),
+            ("to_vec_cobs<64>", no_panic(|| postcard::to_vec_cobs::<T, 64>(v).map(|x| x.to_vec())).map_err(|p| fail("frame", format!("{} panicked: {}", name, p), cj()))?),
+            ("to_slice_cobs", no_panic(|| postcard::to_slice_cobs(v, &mut buf).map(|s| s.to_vec())).map_err(|p| fail("frame", format!("{} panicked: {}", name, p), cj()))?),
+        ];
+        for (ep, got) in outs {
+            if got.as_ref() != Ok(&want) {
+                return Err(fail("frame", format!("{}: {} = {:?}, the COBS transform of its plain encoding {} is {}", name, ep, got.map(|b| hex(&b)), hex(&plain), hex(&want)), cj()));
+            }
+        }
+        l.nontrivial(&(name, "zero-sized"));
+        Ok(())
+    }
+    one("OnlyOne::Reset", &OnlyOne::Reset, l)?;
+    one("[OnlyOne; 3]", &[OnlyOne::Reset; 3], l)?;
+    one("(OnlyOne, OnlyOne)", &(OnlyOne::Reset, OnlyOne::Reset), l)?;
+    one("Marker", &Marker, l)?;
+    one("()", &(), l)?;
+    one("empty str", "", l)?;
+    one("empty [u8]", &[0u8; 0][..], l)?;
+    one("[(); 2] as slice", &[(), ()][..], l)?;
+    one("[OnlyOne] slice", &[OnlyOne::Reset, OnlyOne::Reset][..], l)?;
+    one("Option<OnlyOne>::Some", &Some(OnlyOne::Reset), l)?;
+    one("PhantomData", &std::marker::PhantomData::<u64>, l)?;
+    one("Vec<()> of 5", &vec![(); 5], l)
+}
+
 pub fn replay(case: &Json, l: &mut Local) -> CaseResult {
+    if case.get("zero_sized_value").is_some() {
+        return zero_sized_values(l);
+    }
     let shape = shape_of(case);
     if case.get("values").is_some() {
         let values: Vec<Value> = serde_json::from_value(case["values"].clone()).unwrap();
@@ -229,6 +275,7 @@ pub fn run(ctx: &Ctx) {
          remainder == bytes after the frame. non-trivial = message has a zero byte or >= 254 bytes, or sequence of >= 2 frames; \
          distinct = hash(shape, frame)",
     );
+    ctx.serial("zero-sized-values", zero_sized_values);
     let max = ctx.tier.pick(8, 8);
     ctx.par_range("exhaustive-alphabet-4", count_words(4, max), |i, l| {
         let w = nth_word(i, &ALPHA4);
